@@ -17,6 +17,7 @@ CLAIM = {
 
 THEOREMS = ["Okane.Golden.C20_env", "Okane.Golden.C20_compare", "Okane.Golden.C20_readonly",
             "Okane.Golden.C20_missing", "Okane.Golden.C20_update", "Okane.Golden.C20_update_missing",
+            "Okane.Golden.C20_update_pass_only_if_written", "Okane.Golden.C20_update_unwritable", "Okane.Golden.C20_directory",
             "Okane.Golden.crlfToLf_no_crlf_id"]
 
 FILES = [None, b"", b"abc\n", b"abc\r\ndef\r\n", b"a\r\nb\nc\r", b"abc", "日本語\nñ\n".encode(), b"\r\n\r\n", b"\r\r\n", b"\xff\xfe\x00\xc3",
@@ -26,9 +27,15 @@ GOTS = ["", "abc\n", "abc\ndef\n", "abc\r\ndef\r\n", "a\nb\nc\r", "abc", "日本
 ENVS = ["u", "s:~", "s:1", "s:0", "i", "s:" + enc("yes please")]
 
 
+NODIR = "d"        # the golden path lies below a directory that does not exist: absent, and std::fs::write cannot create it
+ISDIR = "D"        # the golden path names a directory
+
+
 def file_tok(f):
     if f is None:
         return "-"
+    if f in (NODIR, ISDIR):
+        return f
     try:
         f.decode("utf-8")
     except UnicodeDecodeError:
@@ -46,6 +53,25 @@ def oracle(f, env1, env2, got, rec):
     if kv.get("new") == "panic":
         return "Golden::new panicked"
     text = None
+    if f == ISDIR:
+        # a directory can neither be read nor replaced: Golden::new must fail and nothing may change
+        ok = kv.get("new") not in ("ok", None) and kv.get("wrote") == "0" and kv.get("file") == "D"
+        return None if ok else "a golden path that names a directory must be an error that changes nothing: " + rec
+    if f == NODIR:
+        if not is_update(env1):
+            ok = kv.get("new") == "notFound" and kv.get("wrote") == "0"
+            return None if ok else "missing file (missing directory) without UPDATE_GOLDEN must be a NotFound error and write nothing: " + rec
+        if kv.get("new") != "ok":
+            return "Golden::new failed on a missing golden although UPDATE_GOLDEN is set: " + rec
+        if is_update(env2):
+            # the file cannot be made to contain `got`: reporting success would be a lie
+            if kv.get("assert") == "pass" and kv.get("file") != "t:" + enc(got):
+                return "UPDATE_GOLDEN set, assert succeeded, but the file does not contain `got` afterwards (the write failed): " + rec
+            return None
+        if kv.get("wrote") != "0" or kv.get("file") != "-":
+            return "file created although UPDATE_GOLDEN is not set: " + rec
+        want = "pass" if got == "" else "panic"
+        return None if kv.get("assert") == want else "assert verdict %s against the empty content, expected %s" % (kv.get("assert"), want)
     if f is not None:
         try:
             text = f.decode("utf-8")
@@ -83,11 +109,12 @@ def run(chk):
     chk.rule = ("full cross product of golden-file states x `got` strings x UPDATE_GOLDEN states at Golden::new and at "
                 "assert time (+ random strings over {a, b, CR, LF, CRLF, e-acute, blank}: 600 quick, 5000 thorough); a case is non-trivial when the file exists or "
                 "UPDATE_GOLDEN is set; distinct = distinct (file, env, env, got) tuples")
-    chk.assumptions = ["std::fs::write succeeds; UTF-8 decoding and the environment are the OS/std library's (not modelled)"]
+    chk.assumptions = ["whether std::fs::write can succeed is a parameter of the modelled world (exercised: parent directory missing, path is a "
+                       "directory; permission bits are not, the checks run as root); UTF-8 decoding and the environment are the OS/std library's"]
     if not standard_prologue(chk, THEOREMS):
         return
     cases = []
-    for i, (f, e1, e2, g) in enumerate(itertools.product(FILES, ENVS, ENVS, GOTS)):
+    for i, (f, e1, e2, g) in enumerate(itertools.product(FILES + [NODIR, ISDIR], ENVS, ENVS, GOTS)):
         if e1 != e2 and chk.tier == "quick" and (i % 4):
             continue
         cases.append((f, e1, e2, g))
@@ -106,14 +133,15 @@ def run(chk):
     for (f, e1, e2, g), line, a, b in zip(cases, lines, impl, model):
         chk.case(line, nontrivial=(f is not None or is_update(e1) or is_update(e2)))
         chk.traces += 1
-        chk.count("file=" + ("absent" if f is None else "binary" if file_tok(f) == "b" else "text"))
+        chk.count("file=" + ("absent" if f is None else "absent-unwritable" if f == NODIR else "directory" if f == ISDIR else
+                             "binary" if file_tok(f) == "b" else "text"))
         chk.count("update_at_assert=%s" % is_update(e2))
         chk.count("impl:" + " ".join(a.split(" ")[:2]))
         msg = oracle(f, e1, e2, g, a)
         if msg:
             chk.oracle_failures += 1
             chk.violation("golden helper breaks C20: " + msg,
-                          {"case": line, "file_bytes": None if f is None else list(f), "env_at_new": e1, "env_at_assert": e2,
+                          {"case": line, "file_bytes": None if f is None else f if isinstance(f, str) else list(f), "env_at_new": e1, "env_at_assert": e2,
                            "got": g, "observed": a, "model": b,
                            "rerun": "echo '%s' | /verif/work/target/debug/hx c20" % line})
         elif a != b:
